@@ -70,6 +70,88 @@ def exotic_variants(pid, scripts, rnd, share=0.12, cap=40):
         k = 'exotic_%s_%s' % (mode, imode); stats[k] = stats.get(k, 0) + 1
     return out, stats
 
+# ---- two objects alive at once: two scripts of a workload run in ONE world, their units taken alternately
+# (the second script's variables renamed apart), so that whatever the library shares between instances --
+# a class-level cache, a module-level buffer, a default argument object -- is used by both in turn
+_CREATORS = {'new': [1], 'newf': [1], 'copy': [1], 'deepcopy': [1], 'compose': [1], 'flag': [1], 'json': [1], 'snapf': [1],
+             'vr': [1], 'emb': [1], 'embm': [1], 'lattice': [1], 'complexes': [2], 'nextc': [1], 'iter': [1], 'gen': [2],
+             'sync': [1], 'nextof': [1]}
+import re as _re
+def _script_vars(sc):
+    V = set()
+    for l in sc:
+        t = l.split()
+        while t and t[0] in ('!',):
+            t = t[1:]
+        if not t: continue
+        if t[0] == 'both' and len(t) > 3:
+            V.update([t[1], t[2]]); continue
+        for pos in _CREATORS.get(t[0], []):
+            if len(t) > pos: V.add(t[pos])
+        if t[0] in ('add', 'addb', 'del', 'delb', 'dels', 'restrict', 'subdiv', 'relabel', 'relabel1', 'q', 'snap', 'setattr', 'setindex',
+                    'next', 'prev', 'min', 'max', 'grow', 'ensure', 'pos', 'getpos', 'clear', 'len', 'positions') and len(t) > 1:
+            V.add(t[1])
+        if t[0] in ('addfrom', 'copyinto', 'composeinto', 'relabeldisj', 'snapinto') and len(t) > 2:
+            V.update(t[1:3])
+        if t[0] == 'compose' and len(t) > 3: V.update(t[2:4])
+        if t[0] in ('copy', 'deepcopy', 'flag', 'json', 'snapf', 'emb', 'embm', 'vr') and len(t) > 2: V.add(t[2])
+    return V
+
+def _units(sc):
+    units = []; cur = []
+    attach_next = False
+    for l in sc:
+        t = l.split()
+        is_pre = len(t) > 1 and t[0] == 'check' and (t[1].endswith('-pre') or t[1].startswith('save') or t[1].endswith('-begin'))
+        is_follow = t and (t[0] in ('snap', 'ids') or (t[0] == 'check' and not is_pre))
+        if l == 'echo --':
+            if cur: units.append(cur)
+            cur = [l]; attach_next = False; continue
+        if is_pre:
+            if cur and not attach_next:
+                units.append(cur); cur = []
+            cur.append(l); attach_next = True; continue
+        if is_follow or attach_next:
+            cur.append(l); attach_next = False if not is_pre else True
+            continue
+        if cur: units.append(cur)
+        cur = [l]
+    if cur: units.append(cur)
+    return units
+
+def interleaved_variants(pid, scripts, rnd, cap=14):
+    ok = [sc for sc in scripts if sc and not sc[0].startswith('exotic') and not any(('save-all' in l) or l.startswith('reset') or l.startswith('#') for l in sc)]
+    out = []; stats = {'pairs': 0}
+    rnd_ = rnd
+    tries = 0
+    while len(out) < cap and tries < cap * 4 and len(ok) >= 2:
+        tries += 1
+        A, B = rnd_.sample(ok, 2)
+        if len(A) + len(B) > 400: continue
+        VB = {_re.sub(r'\d+$', '', v) for v in _script_vars(B)}        # base names: `complexes f p` binds p0, p1, ...
+        if 's' in VB or 'i' in VB or '' in VB or not VB or any(not _re.match(r'^[a-z][a-z]?[a-z]?[a-z]?\d*$', v) for v in VB):
+            continue
+        pat = _re.compile(r'^(%s)(\d*)$' % '|'.join(sorted(map(_re.escape, VB), key=len, reverse=True)))
+        def ren(tok_):
+            m = pat.match(tok_)
+            return (m.group(1) + 'Z' + m.group(2)) if m else tok_
+        def ren_line(l):
+            t = l.split(' ')
+            keep = {1} if t and t[0] == 'check' else set()      # the oracle's name is not a variable
+            return ' '.join(x if i in keep else ren(x) for i, x in enumerate(t))
+        B2 = [ren_line(l) for l in B]
+        ua, ub = _units(A), _units(B2)
+        merged = []
+        i = j = 0
+        while i < len(ua) or j < len(ub):
+            take_a = j >= len(ub) or (i < len(ua) and rnd_.random() < 0.5)
+            if take_a:
+                merged += ua[i]; i += 1
+            else:
+                merged += ub[j]; j += 1
+        out.append(merged); stats['pairs'] += 1
+    return out, stats
+
 def merge_stats(total, st):
     for k, v in st.items():
         total[k] = total.get(k, 0) + v
